@@ -72,3 +72,11 @@ Definition run_cond_roundtrip (t : dslc arg1) : res pyval :=
   let* (_, c2) := cond1_from_spec T X j in
   let* j2 := cond1_to_json T X c2 in
   Ok (VTuple [VBool (json_pure j); VBool (cond1_eqb T c2 c); VBool (py_eq j2 j)]).
+
+(* == on DSL-built conditions / API-built paths / rules (C14) *)
+Definition run_cond_eq (a b : dslc arg1) : res pyval :=
+  let* x := build1 T a in let* y := build1 T b in Ok (VBool (cond1_eqb T x y)).
+Definition run_path_eq (a b : pathterm pyval) : res pyval :=
+  let* x := mk_path T idlit a in let* y := mk_path T idlit b in Ok (VBool (path_eqb x y)).
+Definition run_rule_eq (a b : ruleterm) (ga gb : bool) : res pyval :=
+  let* x := mk_rule T a in let* y := mk_rule T b in Ok (VBool (rule_eqb T x y ga gb)).
